@@ -245,15 +245,14 @@ def run(tier, seed):
     res = core.Result(PROPERTY, LEVEL, tier, seed)
     A, V, O = False, True, 'opcodes'       # preempt at every package line / only at visible lines / also between bytecodes of visible functions
     if tier == 'quick':
-        plan = [('name-vs-subclass', 1, A), ('name-vs-subclass', 2, V),
-                ('name-vs-subclass', 1, O), ('name-vs-same', 1, O),
-                ('name-vs-same', 1, A), ('name-vs-same', 2, V),
-                ('name-twice-vs-subclass', 1, A), ('name-twice-vs-subclass', 2, V),
-                ('long-strings', 1, A),
-                ('nested-vs-direct', 1, A), ('nested-vs-direct', 2, V),
+        plan = [('name-vs-subclass', 1, A), ('name-vs-subclass', 2, V), ('name-vs-subclass', 1, O),
+                ('name-vs-same', 1, A), ('name-vs-same', 1, O),
+                ('name-twice-vs-subclass', 1, A),
+                ('nested-vs-direct', 1, A),
                 ('unregistered-vs-containers', 1, A),
                 ('structseq', 1, V),
                 ('stdlib-lazy', 1, A),
+                ('long-strings', 1, A),
                 ('three-threads', 1, A), ('three-threads-mixed', 1, V)]
     else:
         plan = [('name-vs-subclass', 2, A), ('name-vs-subclass', 3, V),
